@@ -100,6 +100,10 @@ def find(req):
     import archive_probe
     import C09_probe as P
     oid = (req or {}).get("obligation") or ""
+    if "read-back-path-identifies-one-member-when-the-temp-dir-name-is-known" in oid or (req or {}).get("known_finding") == "C09-7z-read-back-collision-through-temp-dir-name":
+        # a recorded defect of the unchanged tree: probed only for its own obligation, never as a witness for another one
+        r = P.name_collisions_7z_known_temp_name()
+        return r if r is not None else {"reproduced": False, "note": "7z entries re-entering the private directory through its name: no selected member gave another entry's bytes"}
     if "read-back-path-identifies-one-member" in oid or (req or {}).get("known_finding") == "C09-7z-read-back-by-path-collisions":
         # a recorded defect of the unchanged tree: probed only for its own obligation, never as a witness for another one
         r = P.name_collisions_7z()
